@@ -76,7 +76,7 @@ def build_harness(outdir, flavour, srcs, incs=(), defs=(), name=None, renames=Tr
     return exe
 
 
-TSAN_BASE = 'halt_on_error=0:exitcode=66:report_signal_unsafe=0:atexit_sleep_ms=0:history_size=2'
+TSAN_BASE = 'halt_on_error=0:exitcode=66:report_signal_unsafe=0:report_thread_leaks=0:atexit_sleep_ms=0:history_size=2'
 ASAN_BASE = 'detect_leaks=0:exitcode=67:abort_on_error=0:allocator_may_return_null=1'
 
 
@@ -90,10 +90,10 @@ def _env(symbolize):
     return e
 
 
-def explore(exe, words, pb=2, db=0, spurious=0, jobs=1, deadline=0, horizon=5000, maxexec=0, timeout=3600):
+def explore(exe, words, pb=2, db=0, spurious=0, jobs=1, deadline=0, horizon=5000, maxexec=0, timeout=3600, cpu=-1, envpor=1):
     """run the explorer; returns dict(levels=[...], outcomes=[...], done={...}).  Raises MachineryError on exit 2."""
     cmd = [exe, 'explore', '--pb', str(pb), '--db', str(db), '--spurious', str(spurious), '--jobs', str(jobs), '--deadline', str(deadline),
-           '--horizon', str(horizon), '--maxexec', str(maxexec), '--'] + [str(w) for w in words]
+           '--horizon', str(horizon), '--maxexec', str(maxexec), '--cpu', str(cpu), '--envpor', str(envpor), '--'] + [str(w) for w in words]
     r = subprocess.run(cmd, stdout=subprocess.PIPE, stderr=subprocess.PIPE, env=_env(False), timeout=timeout)
     res = {'levels': [], 'outcomes': [], 'done': None, 'cmd': ' '.join(cmd)}
     for line in r.stdout.decode(errors='replace').splitlines():
@@ -245,7 +245,19 @@ class Matrix:
         """jobs: dicts with case, words, exe, flavour, pb, db, spurious, [horizon], [weight].  oracle(job, outcome) -> [(key,msg)]"""
         jobs = sorted(jobs, key=lambda j: -j.get('weight', 1))
 
+        import queue
+        cpus = queue.Queue()
+        for c in range(workers or NCPU):
+            cpus.put(c % (os.cpu_count() or 1))
+
         def one(job):
+            cpu = cpus.get()
+            try:
+                return one_(job, cpu)
+            finally:
+                cpus.put(cpu)
+
+        def one_(job, cpu):
             if self.machinery:
                 return None
             remaining = 0
@@ -255,7 +267,7 @@ class Matrix:
                     return 'skipped'
             try:
                 res = explore(job['exe'], job['words'], pb=job['pb'], db=job.get('db', 0), spurious=job.get('spurious', 0), jobs=job.get('jobs', 1),
-                              deadline=max(remaining, 0), horizon=job.get('horizon', 5000))
+                              deadline=max(remaining, 0), horizon=job.get('horizon', 5000), cpu=cpu)
                 for o in res['outcomes']:
                     fails = []
                     if o['status'] == 'machinery':
